@@ -433,6 +433,9 @@ func (in *instr) run() bool {
 				if recv == nil {
 					die("%s: cannot resolve receiver of %s", in.pos(n), full)
 				}
+				if name == "PoolGet" && strings.HasPrefix(in.pkg.PkgPath, "github.com/gofiber/fiber/") {
+					name = "PoolGetY"
+				}
 				args := append([]ast.Expr{recv}, n.Args...)
 				st := in.site(n, strings.ToLower(name))
 				if !opsWithoutSite[name] {
@@ -440,6 +443,18 @@ func (in *instr) run() bool {
 				}
 				c.Replace(call(name, args...))
 				return true
+			}
+			if fn.Pkg() != nil && in.on("pool") && strings.HasPrefix(in.pkg.PkgPath, "github.com/gofiber/fiber/") {
+				pp, nm := fn.Pkg().Path(), fn.Name()
+				if sig, ok := fn.Type().(*types.Signature); ok && sig.Recv() == nil && sig.Results().Len() == 1 &&
+					((pp == "github.com/valyala/fasthttp" && strings.HasPrefix(nm, "Acquire")) || (pp == "github.com/valyala/bytebufferpool" && nm == "Get")) {
+					switch in.parent(0).(type) {
+					case *ast.DeferStmt, *ast.GoStmt:
+						return true
+					}
+					c.Replace(call("A", n, in.site(n, "acquire")))
+					return true
+				}
 			}
 			if r, ok := randFuncs[full]; ok && in.on("rand") {
 				in.site(n, "rand")
